@@ -1470,3 +1470,203 @@ def check_C12(ctx):
     ctx.coverage["samples"] = [lines[0], lines[len(lines) // 2], lines[-1]]
     ctx.coverage["evaluations"] = len(lines)
     ctx.coverage["distinct_nontrivial"] = len(set(lines))
+
+
+# ---- C09: cgreen-runner ---------------------------------------------------------------------------
+import fnmatch as _fn
+
+CTX_NAMES = ["Alpha", "Alp", "Al", "Beta", "Bet", "Tcp", "Tls", "T", "Net_io", "X"]
+TEST_NAMES = ["connects", "connect", "con", "bet", "beta", "better", "alpha", "a", "ab", "abc", "zeta", "can_send", "can_send_more", "x", "closes_fails", "c_fails"]
+
+
+def gen_library(rng, ntests):
+    items = set()
+    ctxs = rng.sample(CTX_NAMES, rng.choice([1, 2, 3])) + (["default"] if rng.random() < 0.5 else [])
+    tries = 0
+    while len(items) < ntests and tries < ntests * 50:
+        tries += 1
+        c = rng.choice(ctxs)
+        n = rng.choice(TEST_NAMES) if ntests < 40 else f"{rng.choice(TEST_NAMES)}_{len(items)}"
+        items.add((c, n))
+    return sorted(items)
+
+
+def library_sources(libname, items):
+    """One translation unit per context (Describe() defines file-static fixtures)."""
+    files = {}
+    for c in sorted({c for c, _ in items}):
+        out = ['#include <cgreen/cgreen.h>', '#include <stdio.h>', '#include <stdlib.h>',
+               'static void log_run(const char *n) { FILE *f = fopen(getenv("C09_LOG"), "a"); if (f) { fprintf(f, "%s\\n", n); fclose(f); } }']
+        if c != "default":
+            out += [f"Describe({c});", f"BeforeEach({c}) {{}}", f"AfterEach({c}) {{}}"]
+        for cc, n in items:
+            if cc != c: continue
+            ok = "0" if n.endswith("_fails") else "1"
+            head = f"Ensure({n})" if c == "default" else f"Ensure({c}, {n})"
+            out.append(f'{head} {{ log_run("{libname}/{c}:{n}"); assert_that({ok}, is_equal_to(1)); }}')
+        files[c] = "\n".join(out) + "\n"
+    return files
+
+
+def gen_pattern(rng, items):
+    if rng.random() < 0.15:
+        return None
+    c, n = rng.choice(items)
+    def star(s):
+        r = rng.random()
+        if r < 0.3: return s
+        if r < 0.5: return s[: rng.randrange(len(s) + 1)] + "*"
+        if r < 0.6: return "*" + s[rng.randrange(len(s) + 1):]
+        if r < 0.7: return "*"
+        if r < 0.8: return s[:1] + "*" + s[-1:]
+        if r < 0.9: return s + "x"           # matches nothing
+        return s[:-1] if len(s) > 1 else s
+    if c == "default" and rng.random() < 0.5:
+        return star(n)
+    return star(c) + ":" + star(n)
+
+
+def py_selected(items, pat):
+    if pat is None:
+        return list(items)
+    if ":" in pat:
+        cp, np_ = pat.split(":", 1)
+    else:
+        cp, np_ = "default", pat
+    return [(c, n) for c, n in items if _fn.fnmatchcase(c, cp) and _fn.fnmatchcase(n, np_)]
+
+
+def check_C09(ctx):
+    lean_check(ctx)
+    rng = random.Random(ctx.seed * 1000 + 9)
+    impl = build_impl(ctx, asan=False, runner=True)
+    step = growth_step() or 100
+    sizes_list = [1, 2, 3, 5, 8, 12] * sizes(ctx, 2, 12) + [step - 1, step, step + 1] + ([2 * step, 2 * step + 1, 3 * step + 1] if ctx.tier == "thorough" else [2 * step + 1])
+    libdir = os.path.join(ctx.work, "libs"); os.makedirs(libdir)
+    libs = []
+    procs = []
+    for k, nt in enumerate(sizes_list):
+        name = f"lib{k}_tests.so"
+        items = gen_library(rng, nt)
+        srcs = []
+        for c, text in library_sources(name, items).items():
+            src = os.path.join(libdir, f"lib{k}_{c}.c")
+            open(src, "w").write(text); srcs.append(src)
+        procs.append(subprocess.Popen(["gcc", "-shared", "-fPIC", "-w", f"-I{REPO}/include"] + srcs + ["-o", os.path.join(libdir, name)] + [f"-L{impl['dir']}", "-lcgreen"],
+                                      stdout=subprocess.PIPE, stderr=subprocess.STDOUT))
+        libs.append((name, items))
+    for p in procs:
+        out, _ = p.communicate()
+        if p.returncode != 0:
+            raise BuildError("test library: " + out.decode()[-1500:])
+    runs = []     # (args(list of (lib, pat)), options)
+    for name, items in libs:
+        for _ in range(sizes(ctx, 10, 30) if len(items) < 40 else 4):
+            runs.append(([(name, gen_pattern(rng, items))], rng.choice([[], [], ["-q"], ["--xml", "X"], ["-X", "L"], ["-s", "Suite"]])))
+    for _ in range(sizes(ctx, 25, 300)):     # several libraries, each with or without its own pattern; sometimes a missing one
+        chosen = rng.sample(libs[: min(len(libs), 14)], rng.choice([2, 2, 3]))
+        pairs = [(n, gen_pattern(rng, it) if rng.random() < 0.6 else None) for n, it in chosen]
+        if rng.random() < 0.15:
+            pairs.insert(rng.randrange(len(pairs) + 1), ("no_such_library.so", None))
+        runs.append((pairs, rng.choice([[], ["-q"], ["--xml", "X"], ["-s", "Common"]])))
+    libmap = dict(libs)
+
+    def one(i_run):
+        i, (pairs, opts) = i_run
+        wd = os.path.join(ctx.work, f"c09-{i}"); os.makedirs(wd)
+        log = os.path.join(wd, "log")
+        args = []
+        for l, p in pairs:
+            args.append(l)
+            if p is not None: args.append(p)
+        env = dict(os.environ); env["C09_LOG"] = log; env.pop("CGREEN_NO_FORK", None)
+        for l in libmap: os.symlink(os.path.join(libdir, l), os.path.join(wd, l))
+        try:
+            r = subprocess.run([impl["runner"]] + opts + args, cwd=wd, stdout=subprocess.PIPE, stderr=subprocess.PIPE, env=env, timeout=120)
+            rc = r.returncode
+        except subprocess.TimeoutExpired:
+            rc = "timeout"
+        ex = sorted(open(log).read().split("\n")[:-1]) if os.path.exists(log) else []
+        shutil.rmtree(wd, ignore_errors=True)
+        return ex, rc
+    with ThreadPoolExecutor(max_workers=NCPU) as pool:
+        results = list(pool.map(one, enumerate(runs)))
+    blocks = []
+    for pairs, opts in runs:
+        b = [f"lib {n} " + " ".join((f"{c}:{t}" if c != "default" else t) for c, t in it) for n, it in libs if any(n == l for l, _ in pairs)]
+        args = []
+        for l, p in pairs:
+            args.append(l)
+            if p is not None: args.append(p)
+        b.append("run " + " ".join(args))
+        blocks.append("\n".join(b))
+    mout = run_model(["select"], "".join(b + "\n---\n" for b in blocks)).split("---\n")
+    ndis = nor = 0
+    for (pairs, opts), (ex, rc), mo in zip(runs, results, mout):
+        ml = mo.strip().split("\n")
+        mex = [x for x in ml[0].split(" ")[1:] if x]
+        mst = int(ml[1].split(" ")[1])
+        cmdline = " ".join(opts + [x for l, p in pairs for x in ([l] + ([p] if p is not None else []))])
+        if sorted(mex) != ex or (mst != 0) != (rc != 0):
+            ndis += 1
+            if ndis <= 3:
+                ctx.oblige("correspondence C09", False, f"cgreen-runner {cmdline}: model executed {len(mex)} status {mst}; impl executed {len(ex)} exit {rc}")
+        # independent oracle (the command line is read as the runner documents it: an argument after a library that is
+        # not an existing file is that library's pattern)
+        flat = [x for l, p in pairs for x in ([l] + ([p] if p is not None else []))]
+        opairs, i = [], 0
+        while i < len(flat):
+            l = flat[i]; i += 1
+            if i < len(flat) and flat[i] not in libmap:
+                opairs.append((l, flat[i])); i += 1
+            else:
+                opairs.append((l, None))
+        want, fail = [], False
+        for l, p in opairs:
+            if l not in libmap:
+                fail = True; break
+            sel = py_selected(libmap[l], p)
+            if not sel: fail = True
+            want += [f"{l}/{c}:{n}" for c, n in sel]
+            if any(n.endswith("_fails") for _, n in sel): fail = True
+        if sorted(want) != ex or fail != (rc != 0):
+            nor += 1
+            if nor <= 6:
+                missing = sorted(set(want) - set(ex))[:4]; extra = sorted(set(ex) - set(want))[:4]
+                dup = [x for x in set(ex) if ex.count(x) > 1][:3]
+                ctx.violation(f"[C09] cgreen-runner {cmdline}: executed {len(ex)} tests, exit {rc}; selected are {len(want)} tests, expected {'failure' if fail else 'success'}"
+                              + (f"; never executed: {missing}" if missing else "") + (f"; executed but not selected: {extra}" if extra else "") + (f"; executed twice: {dup}" if dup else ""),
+                              "# libraries (context:test):\n" + "\n".join(f"# {n}: " + " ".join(f"{c}:{t}" for c, t in libmap[n]) for n, _ in pairs if n in libmap) + f"\ncgreen-runner {cmdline}\n",
+                              found_input=True, facts={"single_wildcard_match": any(p and "*" in p and len(py_selected(libmap.get(l, []), p)) == 1 for l, p in pairs)})
+    # ---- long library paths (sanitizer build of the runner) ----
+    aimpl = build_impl(ctx, asan=True, runner=True, tag="asan-runner")
+    name, items = libs[0]
+    for plen in (200, 900, 985, 1000, 1100, 3000):
+        d = os.path.join(ctx.work, "p")
+        rel = ""
+        while len(rel) < plen:
+            rel = os.path.join(rel, "d" * min(200, plen - len(rel)))
+        full = os.path.join(d, rel)
+        os.makedirs(full, exist_ok=True)
+        shutil.copy(os.path.join(libdir, name), os.path.join(full, name))
+        log = os.path.join(ctx.work, "longlog")
+        if os.path.exists(log): os.unlink(log)
+        env = asan_env({"C09_LOG": log, "LD_LIBRARY_PATH": impl["dir"]})
+        r = subprocess.run([aimpl["runner"], os.path.join(rel, name)], cwd=d, stdout=subprocess.PIPE, stderr=subprocess.PIPE, env=env, timeout=120)
+        err = r.stderr.decode("latin-1")
+        ex = sorted(open(log).read().split("\n")[:-1]) if os.path.exists(log) else []
+        if "ERROR: AddressSanitizer" in err or "runtime error" in err or r.returncode in (98, 99) or r.returncode < 0:
+            ctx.violation(f"[C09] a library path of {len(os.path.join(rel, name))} characters: undefined behaviour in cgreen-runner (exit {r.returncode}): " +
+                          " ".join(l.strip() for l in err.split("\n") if "ERROR" in l or "SUMMARY" in l)[:300],
+                          f"cgreen-runner <a relative path of {len(os.path.join(rel, name))} characters>/{name}", found_input=True, facts={"crash": True, "long_path": True})
+            break
+        elif len(ex) != len(items):
+            ctx.violation(f"[C09] a library path of {len(os.path.join(rel, name))} characters: {len(ex)} of {len(items)} tests executed (exit {r.returncode})",
+                          f"cgreen-runner <a relative path of {len(os.path.join(rel, name))} characters>/{name}", found_input=True, facts={"long_path": True})
+            break
+        shutil.rmtree(d, ignore_errors=True)
+    ctx.oblige("correspondence C09: model and cgreen-runner execute the same tests and agree on the exit status", ndis == 0, f"{ndis} runs disagree")
+    ctx.coverage["correspondence"] = {"cases": len(runs), "libraries": len(libs), "library_sizes": sorted({len(i) for _, i in libs}), "disagreements": ndis, "oracle_failures": nor}
+    ctx.coverage["samples"] = [" ".join(o + [x for l, p in pr for x in ([l] + ([p] if p else []))]) for pr, o in runs[:3]]
+    ctx.coverage["evaluations"] = len(runs)
+    ctx.coverage["distinct_nontrivial"] = len({str(r) for r in runs})
